@@ -249,8 +249,22 @@ Plan genReasm(const std::string& prop, int tier, uint64_t batchSeed, uint64_t id
     Gen g(prop, tier, batchSeed, idx);
     Rng& r = g.rng;
     g.cfg().set("rx", 1);
-    const size_t nNodes = 1 + r.below(4);
-    auto eps = g.pickEndpoints(nNodes);
+    // one run in six: many endpoints on ONE device with random stream ids (or one stream on many devices), so that
+    // keys which collide in one coordinate - and in the buckets of a hash table - are present at the same time
+    const bool crowd = r.chance(1, 6);
+    const size_t nNodes = crowd ? 5 + r.below(4) : 1 + r.below(4);
+    auto eps = g.pickEndpoints(crowd ? 1 : nNodes);
+    if (crowd)
+    {
+        const bool sameDev = r.chance(2, 3);
+        std::set<int> other;
+        while (other.size() < nNodes)
+            other.insert(static_cast<int>(r.below(sameDev ? 256 : 65536)));
+        const auto base = eps[0];
+        eps.clear();
+        for (int o : other)
+            eps.emplace_back(sameDev ? base.first : o, sameDev ? o : base.second);
+    }
     std::vector<int> nodeType(nNodes);
     const bool withCm = r.chance(1, 2);
     for (size_t i = 0; i < nNodes; ++i)
@@ -264,7 +278,7 @@ Plan genReasm(const std::string& prop, int tier, uint64_t batchSeed, uint64_t id
             n.set("gap", r.pick<int64_t>({5, 17, 40, 100}));
     }
     const int maxSeg = tier ? 300 : 40;
-    const size_t nOpsPerNode = 1 + r.below(5);
+    const size_t nOpsPerNode = crowd ? 1 + r.below(2) : 1 + r.below(5);
     std::vector<int> order;
     for (size_t i = 0; i < nNodes; ++i)
         for (size_t k = 0; k < nOpsPerNode; ++k)
